@@ -132,6 +132,7 @@ func (l *Logger) Fatal(args ...any) {
 		return
 	}
 	l.print("FATAL: ", args)
+	verifOnFatal(l, fmt.Sprint(args...))
 	os.Exit(1)
 }
 
